@@ -1,0 +1,7 @@
+//go:build !verif
+
+package autog
+
+import ig "github.com/nulab/autog/internal/graph"
+
+func verifStage(int, *ig.DGraph) {}
